@@ -209,7 +209,7 @@ func vpStream(k int) ([]vpPkt, []byte) {
 
 func vpRunLoop(in []byte, w *vpWorld) {
 	w.conn.hook = w.sample
-	s := &Server{loggerProvider: &vpLogger{}}
+	s := NewServer(&vpLogger{}, nil)
 	c := newCrypter([]byte("k"), w.conn, false)
 	s.handle(newVPCtx(), c, &vpHandler{w: w, id: 0})
 }
@@ -317,4 +317,40 @@ func vpH_C08_three__2(c int) {
 	vpAssert(conn.closes >= 1, "C08.three.closed-at-end")
 	vpAssert(len(w.invokes) >= 2, "C08.three.scripted-packets-dispatched")
 	vpReach("C08.three.end")
+}
+
+// ---------------------------------------------------------------- C09: two connections, one server
+
+// Sessions are per connection: a session left half-way on one connection must not influence a
+// session with the same id on the next connection served by the same Server.
+func vpH_C09_twoconn() {
+	sid := vpU32()
+	other := vpU32()
+	s := NewServer(&vpLogger{}, nil)
+	// connection 1: a START whose reply registers a continuation, then the client goes away
+	c1 := newVPConn(vpPktBytes(vpPkt{sid: sid, seq: 1, typ: 1}, nil))
+	w1 := newVPWorld(c1)
+	w1.setup = 1
+	c1.hook = w1.sample
+	s.handle(newVPCtx(), newCrypter([]byte("k"), c1, false), &vpHandler{w: w1, id: 0})
+	vpAssert(len(w1.invokes) == 1, "C09.twoconn.first-connection-served")
+	// connection 2: the same session id (or another one) starts from scratch
+	use := sid
+	if vpBool() {
+		use = other
+	}
+	seq := vpU8() | 1
+	c2 := newVPConn(vpPktBytes(vpPkt{sid: use, seq: seq, typ: 1}, nil))
+	w2 := newVPWorld(c2)
+	w2.setup = 1
+	c2.hook = w2.sample
+	s.handle(newVPCtx(), newCrypter([]byte("k"), c2, false), &vpHandler{w: w2, id: 0})
+	vpAssert(len(w2.invokes) == 1, "C09.twoconn.second-connection-starts-a-fresh-session")
+	if len(w2.invokes) == 1 {
+		vpAssert(w2.invokes[0].hid == 0, "C09.twoconn.dispatched-to-the-initial-handler")
+	}
+	if seq != 255 {
+		vpAssert(len(c2.out) == 1, "C09.twoconn.second-connection-gets-its-reply")
+	}
+	vpReach("C09.twoconn.end")
 }
